@@ -93,6 +93,24 @@ func checkC06(c *Ctx, r *Report) {
 	compareSpec(c, r, sessionHeaderSpecs, "wire", nc)
 	r.Extra["not_covered"] = nc
 
+	// the values that go into correctly laid-out fields: setup payloads carry the caller's
+	// privilege level, lookup mode and username and the BMC's session ID (rule shared with C01) ...
+	{
+		m := c.findCtor()
+		found := map[string]*trSite{}
+		if m != nil && m.M1 != nil && m.M2 != nil {
+			sites, _ := c.transcriptSites(m)
+			for k, st := range sites {
+				if st.Shape == "" {
+					found[k] = st
+				}
+			}
+		}
+		checkDriverOrder(c, r, found)
+	}
+	// ... and the commands the library builds for the caller carry the caller's arguments
+	checkHelperRequests(c, r)
+
 	checkOperationTable(c, r)
 	checkBuildLiterals(c, r)
 	// every transmission, including retransmissions, is serialised from freshly built layers
